@@ -562,8 +562,13 @@ func (lb *LoadBalancer) IsBackendHealthy(backend *Backend) bool {
 			logging.L().Info().Str("backend", backend.Name).Msg("backend marked healthy")
 			return true
 		}
+		// Someone else changed the state between our read and the write lock:
+		// report what it is now. (Returning false here made a request that
+		// raced with the expiry of the unhealthy period treat a backend as
+		// unhealthy that another request had just marked healthy again.)
+		isHealthy = backend.IsHealthy
 		backend.Mutex.Unlock()
-		return false
+		return isHealthy
 	}
 
 	return isHealthy
